@@ -4,9 +4,9 @@ open Drvlib
 (* C11 driver.  Strings are hex tokens.
    S <s>                      -> py_strip
    P <text>                   -> parse_flat (raw) + post_reqs
-   H <text>                   -> spec side: guards, fields, select_fields
+   H <text>                   -> spec side: body_harmless, fields, select_fields
    F <project> <n> <names..>  -> find_dist_info on the list AS GIVEN
-   M <project> <entry>        -> own_match / any_match bits
+   M <project> <entry>        -> root_match / own_match / any_match bits
    R <basename> <archive>     -> fetch_from_wheel
    W <basename> <archive> <nv> (<s> <0|1>)* <nr> (<s> <0|1>)*  -> extract_whl with table oracles
    Q <n> (W <path> <archive> | R <path>)* <tables as for W>  -> run_ops: answers joined by " ; "
@@ -38,16 +38,14 @@ let handle line =
   | "P" -> print_flat (parse_flat (next_str st))
   | "H" -> let t = next_str st in
     let fs = rfc822_fields t in
-    b2s (no_headerlike_body t) ^ " " ^ b2s (no_folded t) ^ " " ^ b2s (single_colon_nv t) ^ " " ^ b2s (body_harmless t) ^ " "
+    b2s (body_harmless t) ^ " "
     ^ string_of_int (List.length fs) ^ String.concat "" (List.map (fun (n, v) -> " " ^ cl_hex n ^ " " ^ cl_hex v) fs)
     ^ " | " ^ print_flat (select_fields fs)
   | "F" -> let p = next_str st in let names = next_list st next_str in
     (match find_dist_info p names with
      | Found e -> "FOUND " ^ cl_hex e | NotFound -> "NOTFOUND" | RegexUnmodelled -> "UNMODELLED")
   | "M" -> let p = next_str st in let e = next_str st in
-    (match pat_of_project p with
-     | None -> "UNMODELLED"
-     | Some pat -> b2s (own_match pat e) ^ " " ^ b2s (any_match e))
+    b2s (root_match p e) ^ " " ^ b2s (own_match p e) ^ " " ^ b2s (any_match e)
   | "R" -> let b = next_str st in let a = next_archive st in
     (match fetch_from_wheel b a with
      | FetchNone -> "NONE" | FetchUnmodelled -> "UNMODELLED" | FetchFlat f -> "FLAT " ^ print_flat f)
